@@ -158,8 +158,12 @@ type Shared struct {
 	Events []Event
 	script *Script
 	Acked  [][]string // recipients (as received) of each acknowledged transaction; LMTP: one entry per 250
-	Cmds   map[string]int
-	Reg    *Registry
+	// AckedTx[i] = number of the message transfer (one per final dot, over all hops) Acked[i] belongs to:
+	// an address listed twice in ONE transfer (two RCPT commands, LMTP: two 250 replies) got the message once
+	AckedTx []int
+	dataSeq int
+	Cmds    map[string]int
+	Reg     *Registry
 }
 
 func NewShared() *Shared {
@@ -216,6 +220,26 @@ func (sh *Shared) Snapshot() (acked [][]string, cmds map[string]int) {
 		cmds[k] = v
 	}
 	return append([][]string{}, sh.Acked...), cmds
+}
+
+// Transfers: per recipient (as received) the number of distinct message transfers acknowledged for it.
+func (sh *Shared) Transfers() map[string]int {
+	sh.mu.Lock()
+	defer sh.mu.Unlock()
+	seen := map[string]map[int]bool{}
+	for i, tx := range sh.Acked {
+		for _, a := range tx {
+			if seen[a] == nil {
+				seen[a] = map[int]bool{}
+			}
+			seen[a][sh.AckedTx[i]] = true
+		}
+	}
+	out := map[string]int{}
+	for a, m := range seen {
+		out[a] = len(m)
+	}
+	return out
 }
 
 // Key identifies a recipient at the hop: the address exactly as it came over the wire.  (Two
@@ -420,6 +444,10 @@ func (h *Hop) session(c net.Conn) {
 			rcpts := accepted
 			accepted = nil
 			inTx = false
+			h.sh.mu.Lock()
+			h.sh.dataSeq++
+			txNo := h.sh.dataSeq
+			h.sh.mu.Unlock()
 			if h.lmtp {
 				n := sc.Drop
 				if n < 0 || n > len(rcpts) {
@@ -430,6 +458,7 @@ func (h *Hop) session(c net.Conn) {
 					if code == 0 || code == 250 {
 						h.sh.mu.Lock()
 						h.sh.Acked = append(h.sh.Acked, []string{rcpts[i]})
+						h.sh.AckedTx = append(h.sh.AckedTx, txNo)
 						h.sh.mu.Unlock()
 						h.sh.event(Key(rcpts[i]), "status", 250)
 						w("250 2.0.0 delivered")
@@ -459,6 +488,7 @@ func (h *Hop) session(c net.Conn) {
 			}
 			h.sh.mu.Lock()
 			h.sh.Acked = append(h.sh.Acked, append([]string{}, rcpts...))
+			h.sh.AckedTx = append(h.sh.AckedTx, txNo)
 			h.sh.mu.Unlock()
 			for _, a := range rcpts {
 				h.sh.event(Key(a), "data", 250)
